@@ -314,8 +314,87 @@ def random_cases(rng, tier, count):
     return out
 
 
+def incompressible_cases(rng, tier):
+    """Pages of incompressible bytes whose size sweeps EVERY value of a window, for every codec: compressors change
+    the encoding of a literal run at particular lengths (LZ4: token nibble 15, then one extension byte per 255 -
+    270, 525, 780, ..; Snappy: literal tags at 60 / 61, 2^8, 2^16; deflate: stored blocks) and a mistake there shows
+    only at exactly that length.  page_size = 1: every write_batch call is its own page.
+      FIXED_LEN_BYTE_ARRAY(1) REQUIRED: a call of n rows = a page body of exactly n bytes, n = 1..600 and
+                                        15 + 255 k + {-1, 0, 1} up to k = 8;
+      INT32 / INT64 REQUIRED:           pages of n random values, n = 1..600 (thorough; quick: n = 1..600 INT32 for
+                                        one codec chosen by the seed);
+      BYTE_ARRAY REQUIRED:              one value per page, lengths sweeping the same window (thorough)."""
+    out = []
+    rb = lambda n: bytes(rng.getrandbits(8) for _ in range(n))
+    sizes = list(range(1, 601)) + [15 + 255 * k + d for k in range(3, 9) for d in (-1, 0, 1)]
+    flba = fc.Column("r", "FIXED_LEN_BYTE_ARRAY", "REQUIRED", 1)
+    for codec in fc.CODECS:
+        opt = fc.Options(codec=codec, page_size=1)
+        out.append(history(fc.Schema([flba]), opt, [[[[rb(1) for _ in range(n)] for n in sizes]]], name=f"incompressible:bytes:{codec}"))
+    wide = [(c, t, w) for c in fc.CODECS for t, w in (("INT32", 4), ("INT64", 8))]
+    if tier == "quick":
+        wide = [(fc.CODECS[(vlib.SEED + k) % len(fc.CODECS)], t, w) for k, (t, w) in enumerate((("INT32", 4),))] + [("LZ4", "INT32", 4)]
+        wide = list(dict.fromkeys(wide))
+    for codec, t, w in wide:
+        opt = fc.Options(codec=codec, page_size=1)
+        out.append(history(fc.Schema([fc.Column("v", t)]), opt, [[[[rb(w) for _ in range(n)] for n in range(1, 601)]]],
+                           name=f"incompressible:{t}:{codec}"))
+    if tier == "thorough":
+        for codec in fc.CODECS:
+            opt = fc.Options(codec=codec, page_size=1)
+            out.append(history(fc.Schema([fc.Column("s", "BYTE_ARRAY")]), opt, [[[[rb(max(0, n - 4))] for n in sizes]]],
+                               name=f"incompressible:BYTE_ARRAY:{codec}"))
+    return out
+
+
+LOGICAL_COLUMNS = [
+    # (physical type, type_length, logical annotation): members with zero / false parameters included - a writer that
+    # leaves out "default" values drops REQUIRED fields of DecimalType / IntType / TimeType / TimestampType
+    ("INT32", 0, "DECIMAL:9:2"), ("INT64", 0, "DECIMAL:18:0"), ("FIXED_LEN_BYTE_ARRAY", 16, "DECIMAL:38:0"),
+    ("BYTE_ARRAY", 0, "DECIMAL:10:0"),
+    ("INT32", 0, "INT:8:0"), ("INT32", 0, "INT:16:1"), ("INT32", 0, "INT:32:0"), ("INT64", 0, "INT:64:1"), ("INT64", 0, "INT:64:0"),
+    ("INT32", 0, "TIME:0:MILLIS"), ("INT32", 0, "TIME:1:MILLIS"), ("INT64", 0, "TIME:0:MICROS"), ("INT64", 0, "TIME:1:NANOS"),
+    ("INT64", 0, "TIMESTAMP:0:MILLIS"), ("INT64", 0, "TIMESTAMP:1:MICROS"), ("INT64", 0, "TIMESTAMP:0:NANOS"),
+    ("BYTE_ARRAY", 0, "STRING"), ("BYTE_ARRAY", 0, "ENUM"), ("BYTE_ARRAY", 0, "JSON"), ("BYTE_ARRAY", 0, "BSON"),
+    ("INT32", 0, "DATE"), ("FIXED_LEN_BYTE_ARRAY", 16, "UUID"), ("FIXED_LEN_BYTE_ARRAY", 2, "FLOAT16"),
+]
+
+
+def logical_cases(rng, tier):
+    """Columns annotated with a LogicalType (the values are plain values of the physical type: the annotation only
+    lives in the footer's SchemaElement.logicalType).  Four to six annotated columns per file, REQUIRED and OPTIONAL."""
+    out = []
+    cols = list(LOGICAL_COLUMNS)
+    rng.shuffle(cols)
+    k = 0
+    while cols:
+        take, cols = cols[:5], cols[5:]
+        schema = fc.Schema([fc.Column(f"c{i}_{lg.split(':')[0].lower()}", t, "OPTIONAL" if (i + k) % 2 else "REQUIRED", tl, lg)
+                            for i, (t, tl, lg) in enumerate(take)])
+        n = 1 + k % 4
+        groups = [[[with_nulls(seq_rows(c, n), [True] * n) if c.rep == "REQUIRED" else
+                    with_nulls(seq_rows(c, n), [j % 2 == 0 for j in range(n)])] for c in schema.columns]]
+        out.append(history(schema, fc.Options(codec=fc.CODECS[k % len(fc.CODECS)]), groups, name=f"logical:{k}"))
+        k += 1
+    return out
+
+
+def many_row_groups(n):
+    """n row groups of one INT32 row each."""
+    col = fc.Column("c0", "INT32")
+    ops = []
+    for i in range(n):
+        ops.append(fc.WriteOp("batch", 0, [i32(i)]))
+        ops.append(fc.WriteOp("new_row_group"))
+    ops.append(fc.WriteOp("close"))
+    return fc.Case(fc.Schema([col]), fc.Options(), ops, name=f"limit:{n}-row-groups")
+
+
 def gen_cases(tier, rng):
-    cases = targeted_cases(rng, tier) + boundary_cases(rng, tier)
+    cases = targeted_cases(rng, tier) + boundary_cases(rng, tier) + incompressible_cases(rng, tier) + logical_cases(rng, tier)
+    if tier == "thorough":
+        # RowGroup.ordinal is an i16: from the 32769th row group on it must be left out, not wrapped (fixed fa2774f)
+        cases.append(many_row_groups(32770))
     for target in (64, 8192) + ((1 << 20,) if tier == "thorough" else ()):
         c = place_at_offset(target)
         if c is not None:
@@ -410,6 +489,50 @@ def c01_compare(case, d):
     return None
 
 
+def check_limits(rep, which):
+    """The writer stays inside the limits of carquet's own footer parser (fixed de6d388): 100001 row groups of one
+    row - the calls for the 100001st are refused (INVALID_METADATA), close still returns OK, and the file holds the
+    first 100000 row groups: the independent reader accepts it (C05) and carquet re-opens and reads it (C01).  Before
+    the repair every call returned OK and the file could not be opened again."""
+    n = 100000
+    case, kept = many_row_groups(n + 1), many_row_groups(n)
+    (st, data), = write_all([case])
+    cj = {"kind": "limit", "row_groups": n + 1}
+    if st.fault:
+        rep.violation(f"the writer died writing {n + 1} row groups: {st.fault.get('summary')}", cj)
+        return
+    refused = [i for i, x in enumerate(st) if not x.endswith(" OK")]
+    if not st.close_ok() or data is None:
+        rep.violation(f"{n + 1} row groups: close did not return OK / no file ({[st[i] for i in refused][:3]})", cj)
+        return
+    if not refused:
+        kept = case                              # a build without the limit: the whole table must be there
+    if which == "C05":
+        bad = c05_check(kept, data)
+        if bad:
+            rep.violation(f"independent reader rejects the file of {n + 1} one-row row groups: " + "; ".join(t for _, t in bad[:3]), cj)
+    else:
+        d = fc.dump(data, "stdio", True, 1 << 20)
+        diff = c01_compare(kept, d)
+        if diff:
+            rep.violation(f"{n + 1} one-row row groups, calls refused: {len(refused)}; close OK; reading the file back: {diff}", cj)
+    rep.cov.setdefault("input_distribution", {})["limit_row_groups"] = {"written": n + 1, "refused_calls": len(refused)}
+
+
+def logical_want(spec):
+    """'DECIMAL:18:0' -> (LogicalType member, {field: value}) as pq.named shows it; None when there is no annotation."""
+    if not spec:
+        return None
+    t = spec.split(":")
+    if t[0] == "DECIMAL":
+        return "DECIMAL", {"precision": int(t[1]), "scale": int(t[2])}
+    if t[0] == "INT":
+        return "INTEGER", {"bitWidth": int(t[1]), "isSigned": bool(int(t[2]))}
+    if t[0] in ("TIME", "TIMESTAMP"):
+        return t[0], {"isAdjustedToUTC": bool(int(t[1])), "unit": t[2]}
+    return {"NULL": "UNKNOWN"}.get(t[0], t[0]), {}
+
+
 def c05_check(case, data):
     """Independent reader on the file bytes.  Returns a list of (clause, text)."""
     bad = []
@@ -435,6 +558,29 @@ def c05_check(case, data):
     want_cb = "Carquet" if (not case.options.created_by or case.options.null_options) else case.options.created_by
     if cb != want_cb:
         bad.append(("created_by", f"created_by {cb!r}, the options say {want_cb!r}"))
+    els = (pf.meta.get("schema") or []) if pf.meta else []
+    for i, col in enumerate(case.schema.columns):
+        got_lt = els[i + 1].get("logicalType") if i + 1 < len(els) else None
+        want_lt = logical_want(col.logical)
+        if want_lt is None:
+            if got_lt is not None and any(not k.startswith("_") for k in got_lt):
+                bad.append(("logical_type", f"column {col.name}: logicalType present although none was given"))
+            continue
+        member, params = want_lt
+        mem = got_lt.get(member) if got_lt else None
+        if mem is None:
+            bad.append(("logical_type", f"column {col.name}: LogicalType.{member} ({col.logical}) not in the footer"))
+            continue
+        for key, val in params.items():
+            have = mem.get(key)
+            if isinstance(val, str):                      # TimeUnit member
+                have = next((u for u in ("MILLIS", "MICROS", "NANOS") if isinstance(have, dict) and u in have), None)
+            if have is None or have != val:
+                bad.append(("logical_type", f"column {col.name}: {member}.{key} = {have!r} in the footer, the schema says {val!r} ({col.logical})"))
+    for k, rg in enumerate((pf.meta.get("row_groups") or []) if pf.meta else []):
+        if rg.get("ordinal") is not None and rg.get("ordinal") != k:
+            bad.append(("rg_ordinal", f"row group {k} carries ordinal {rg.get('ordinal')}"))
+            break
     codec_want = {"LZ4": "LZ4_RAW"}.get(case.options.codec, case.options.codec)
     if case.options.null_options:
         codec_want = "UNCOMPRESSED"
@@ -471,6 +617,8 @@ MODEL_CODECS = ("UNCOMPRESSED", "SNAPPY", "LZ4")      # codecs whose compressor 
 def model_line(case):
     """The extracted writer model's input line for `case` (ocaml/run_writer.ml)."""
     o = case.options
+    if any(c.logical for c in case.schema.columns):
+        return None                           # (the model's schema has no logical types)
     # (the driver's OPT line cannot express an empty created_by: "-" = NULL pointer = the library's default)
     cb = "NULL" if (not o.created_by or o.null_options) else o.created_by.encode().hex()
     page = (1 << 20) if o.null_options else o.page_size
